@@ -91,3 +91,11 @@ pub broadcast axiom fn axiom_f64_add_total(a: f64, b: f64) ensures #[trigger] a.
 pub broadcast axiom fn axiom_f64_sub_total(a: f64, b: f64) ensures #[trigger] a.sub_req(b);
 pub broadcast axiom fn axiom_f64_div_total(a: f64, b: f64) ensures #[trigger] a.div_req(b);
 // @broadcast axiom_f64_mul_total, axiom_f64_add_total, axiom_f64_sub_total, axiom_f64_div_total
+
+// Option::get_or_insert_with: if None, store f(); return a reference to the contained value
+pub assume_specification<T, F: FnOnce() -> T> [Option::<T>::get_or_insert_with] (o: &mut Option<T>, f: F) -> (r: &mut T)
+    requires old(o).is_none() ==> f.requires(()),
+    ensures
+        old(o).is_some() ==> *r == old(o).unwrap(),
+        old(o).is_none() ==> f.ensures((), *r),
+        *final(o) == Some(*final(r));
